@@ -24,6 +24,8 @@
   repo 2dd2956: the value reads back empty) — `source_roundtrip`, `toggle_roundtrip`.
 -/
 import Gts.Lemmas.GbReadWrite
+import Gts.Lemmas.GbFixed
+import Gts.Lemmas.GbLearn
 import Gts.Lemmas.GbLocRT
 import Gts.Lemmas.GbProps
 namespace Gts.C01
@@ -411,5 +413,198 @@ theorem read_stream (reg : Registry) (rs : List (Record × Bytes))
     ∃ t, writeAll reg (rs.map (·.1)) = .ok t ∧
       readAll reg t = some (rs.map (fun x => readBack reg x.1 x.2), reg, true) :=
   GenBank.read_stream reg rs hall
+
+/-! ## the byte fixed point: write → read → write -/
+
+/-- **FEATURES, fixed point.**  The table that was read back (`readFeature`: the written items
+added back one by one with `Props.Add`, a toggle's value empty), written by `INSDCFormatter` under
+any registry `reg'` that writes the same text as `reg` (`sameText`: `reg` plus some of its unknown
+names learned as quoted — `learnTable reg fs` is one), is byte for byte the table text that was
+read.  Needs only that every `Props` has named rows with pairwise distinct names
+(`propsDistinct`); no clause on values: the writer looks up the NAMES of the table only, and
+learning keeps every earlier answer except unknown → quoted, which are written alike. -/
+theorem features_fixed_point (reg reg' : Registry) (hs : sameText reg reg') (fs : List QFeature)
+    (hd : tableDistinct fs = true) :
+    tableText reg' (fs.map (readFeature reg)) = tableText reg fs :=
+  tableText_readFeature reg reg' hs fs (by simpa [tableDistinct, List.all_eq_true] using hd)
+
+/-- non-vacuity: a table with a toggle that was given a value through the API, a row without a
+value, a multi-valued row and an unknown name has distinct row names, is not `tableFaithful` (it
+does not come back as itself), and the registry that read it writes the same text -/
+def fixedWitness : List QFeature :=
+  [⟨bs "source", .ranged 0 10 false false, [[bs "organism", bs "Homo sapiens"], [bs "focus", bs "x"], [bs "note"]]⟩,
+   ⟨bs "CDS", .point 3, [[bs "my_tag", bs "learned", bs "twice"], [bs "codon_start", bs "1"]]⟩]
+
+example : tableDistinct fixedWitness = true ∧ tableFaithful Registry.default fixedWitness = false ∧
+    fixedWitness.map (readFeature Registry.default) ≠ fixedWitness ∧
+    (learnTable Registry.default fixedWitness).typeOf (bs "my_tag") = .quoted ∧
+    Registry.default.typeOf (bs "my_tag") = .unknown :=
+  ⟨by decide +kernel, by decide +kernel, by
+    intro h
+    have := congrArg (fun t => (t.map fun f => f.props.length)) h
+    revert this; decide +kernel, by decide +kernel, by decide +kernel⟩
+
+/-- the same table with the toggle's value empty: in the domain `tableWritable`, and still not
+`tableFaithful` (the row without a value does not come back) -/
+def fixedWitness' : List QFeature :=
+  [⟨bs "source", .ranged 0 10 false false, [[bs "organism", bs "Homo sapiens"], [bs "focus", bs ""], [bs "note"]]⟩,
+   ⟨bs "CDS", .point 3, [[bs "my_tag", bs "learned", bs "twice"], [bs "codon_start", bs "1"]]⟩]
+
+example : sameText Registry.default (learnTable Registry.default fixedWitness) :=
+  sameText_learnTable _ _ _ (sameText_refl _)
+
+/-- **header fields, fixed point.**  The fields that come back — the accession carrying the REGION
+suffix, the region gone (known finding K1A) — print the same header: K1A is a byte fixed point. -/
+theorem header_fixed_point (f : Fields) (L : Int) :
+    headerText { f with accession := accessionLine f, region := none } L = headerText f L :=
+  headerText_readBack f L
+
+example : accessionLine { Fields.empty with accession := bs "AB000001", region := some (2, 9) } = bs "AB000001 REGION: 3..9" := by
+  decide +kernel
+
+/-- **Learning never changes what is written**: a registry that has learned names (unknown →
+quoted) since — by reading this record, earlier records of the stream, or anything else — writes
+every record byte for byte as before.  (`QualifierIO.String` consults the process-global registry
+at write time; the reader is the only code that registers names.) -/
+theorem write_learned_same (reg reg' : Registry) (hs : sameText reg reg') (r : Record) :
+    write reg' r = write reg r :=
+  write_same reg reg' hs r
+
+/-- FULL STATEMENT of the fixed point (false): "for every `Writable` record, writing the re-read
+record reproduces the first output".  `Writable` admits a hand-built `Props` in which a row name
+occurs twice in non-adjacent rows (not constructible with `Props.Add` / `Props.Set`):
+`Props.Items` writes the FIRST row's values once per row of that name, `Props.Add` on reading
+gathers them into one row, and the second output has the lines in another order.  Replayed on the
+real code: `gb.write` / `gb.wrw` of this witness give the two different texts. -/
+def dupNamesWitness : Record :=
+  ⟨{ Fields.empty with locusName := bs "X", molecule := bs "DNA", date := ⟨1, 1, 1⟩ },
+   [⟨bs "gene", .point 0, [[bs "note", bs "a"], [bs "gene", bs "b"], [bs "note", bs "c"]]⟩], .residues []⟩
+
+theorem write_read_write_full_refuted :
+    Writable Registry.default dupNamesWitness [] = true ∧
+    (dupNamesWitness.table.all fun f => Loc.canonP f.loc) = true ∧
+    write (learnTable Registry.default dupNamesWitness.table) (readBack Registry.default dupNamesWitness []) ≠
+      write Registry.default dupNamesWitness ∧
+    tableDistinct dupNamesWitness.table = false := by
+  refine ⟨by decide +kernel, by decide +kernel, ?_, by decide +kernel⟩
+  intro h
+  have := congrArg (fun o => match o with | .ok t => t.length | .error _ => 0) h
+  revert h
+  decide +kernel
+
+/-- **write → read → write, proved part** (guard `namesDistinct`: in every feature the row names
+of `Props` are pairwise distinct — what `Props.Add` / `Props.Set` build; rows without a value are
+allowed).  For a `Writable` record: `GenBank.String` succeeds with a text `t`; `GenBankParser` reads
+from `t` (followed by anything) the record `readBack reg r p` and ends with the registry
+`reg' = learnTable reg r.table`; and `GenBank.String` of THAT record under THAT registry is `t`
+again, byte for byte.  Neither K1A (the REGION suffix moves into the accession: same bytes) nor K1E
+(excluded by `Writable` through `quotedOk`, as in `read_write`) needs a further guard. -/
+theorem write_read_write_partial (reg : Registry) (r : Record) (p : Bytes) (ho : r.origin = .residues p)
+    (hw : Writable reg r p = true) (hloc : ∀ x ∈ r.table, LocRT x.loc)
+    (namesDistinct : tableDistinct r.table = true) (rest' : Bytes) :
+    ∃ t, write reg r = .ok t ∧
+      genbankParser reg ⟨t ++ rest', []⟩ = (.ok (readBack reg r p, learnTable reg r.table), ⟨rest', []⟩) ∧
+      write (learnTable reg r.table) (readBack reg r p) = .ok t := by
+  obtain ⟨t, h1, _, h2⟩ := GenBank.read_write reg r p ho hw hloc rest'
+  refine ⟨t, h1, h2, ?_⟩
+  have hlen : p.length < 10 ^ 9 := (writable_parts reg r p hw).2.2.2.2.2.2.2
+  rw [write_readBack reg _ (sameText_learnTable reg reg r.table (sameText_refl reg)) r p ho hlen namesDistinct, h1]
+
+/-- the fixed point alone, under ANY registry that writes the same text (the reader's registry
+after further records, for instance): `write reg' (readBack reg r p) = write reg r`. -/
+theorem write_readBack_partial (reg reg' : Registry) (hs : sameText reg reg') (r : Record) (p : Bytes)
+    (ho : r.origin = .residues p) (hlen : p.length < 10 ^ 9) (namesDistinct : tableDistinct r.table = true) :
+    write reg' (readBack reg r p) = write reg r :=
+  write_readBack reg reg' hs r p ho hlen namesDistinct
+
+/-- non-vacuity: a record with a region (K1A), a table that does not come back as itself
+(`fixedWitness`) and residues is in the domain of `write_read_write_partial` -/
+def wrwWitness : Record :=
+  ⟨{ locusWitness with accession := bs "AB000001", definition := bs "two\n lines", region := some (2, 9) }, fixedWitness',
+   .residues (List.replicate 12 97)⟩
+
+example : Writable Registry.default wrwWitness (List.replicate 12 97) = true ∧
+    (wrwWitness.table.all fun f => Loc.canonP f.loc) = true ∧ tableDistinct wrwWitness.table = true ∧
+    wrwWitness.fields.region ≠ none ∧ tableFaithful Registry.default wrwWitness.table = false := by
+  refine ⟨by decide +kernel, by decide +kernel, by decide +kernel, by decide, by decide +kernel⟩
+
+/-- **The re-read record is a fixed point of reading, too** (second generation).  `readBack` is
+idempotent: the record that was read back, written and read again under the grown registry, is
+itself (guard `namesDistinct` as above). -/
+theorem read_back_idempotent_partial (reg reg' : Registry) (hs : sameText reg reg') (r : Record) (p : Bytes)
+    (namesDistinct : tableDistinct r.table = true) :
+    readBack reg' (readBack reg r p) p = readBack reg r p :=
+  readBack_idem reg reg' hs r p namesDistinct
+
+/-- **read (write r) under a registry that has learned names.**  The text `GenBank.String` wrote
+under `reg`, read by `GenBankParser` under any `reg'` that writes the same text as `reg`: the same
+record `readBack reg r p` as under `reg` itself, exactly the record's text consumed, and the
+registry `learnTable reg' r.table`.  (`read_write` is the case `reg' = reg`.) -/
+theorem read_write_learned (reg reg' : Registry) (hs : sameText reg reg') (r : Record) (p : Bytes)
+    (ho : r.origin = .residues p) (hw : Writable reg r p = true) (hloc : ∀ x ∈ r.table, LocRT x.loc)
+    (rest' : Bytes) :
+    (∃ t, write reg r = .ok t ∧ t ≠ [] ∧
+      genbankParser reg' ⟨t ++ rest', []⟩ = (.ok (readBack reg r p, learnTable reg' r.table), ⟨rest', []⟩)) ∧
+    reg'.le (learnTable reg' r.table) :=
+  ⟨read_write_gen reg reg' hs r p ho hw hloc rest', learnTable_le reg' r.table⟩
+
+/-- **Reading the same text a second time** (same process, registry as the first reading left it):
+the same record, and the registry does not change any more — the pair (record, registry) reached
+after one reading is stable.  No guard beyond `Writable`. -/
+theorem read_write_second_reading (reg : Registry) (r : Record) (p : Bytes) (ho : r.origin = .residues p)
+    (hw : Writable reg r p = true) (hloc : ∀ x ∈ r.table, LocRT x.loc) (rest' : Bytes) :
+    ∃ t, write reg r = .ok t ∧
+      genbankParser reg ⟨t ++ rest', []⟩ = (.ok (readBack reg r p, learnTable reg r.table), ⟨rest', []⟩) ∧
+      genbankParser (learnTable reg r.table) ⟨t ++ rest', []⟩ =
+        (.ok (readBack reg r p, learnTable reg r.table), ⟨rest', []⟩) := by
+  obtain ⟨t, h1, _, h2⟩ := GenBank.read_write reg r p ho hw hloc rest'
+  obtain ⟨t', h1', _, h3⟩ := read_write_gen reg (learnTable reg r.table)
+    (sameText_learnTable reg reg r.table (sameText_refl reg)) r p ho hw hloc rest'
+  rw [h1] at h1'
+  cases h1'
+  rw [learnTable_idem] at h3
+  exact ⟨t, h1, h2, h3⟩
+
+/-! ## streams in which a record teaches the registry new names -/
+
+/-- **Streams with learning.**  `WriteSeq` for every record under the registry as it is at write
+time (`QualifierIO.String` reads the process-global lists; writing registers nothing, so the whole
+stream is written under one registry `reg`), then `GenBankParser` until the input is used up,
+starting from `reg` and carrying what each record teaches to the next (`learnStream`): exactly the
+records, each as `readBack reg`, no error, and the final registry is the fold of `learnTable` over the
+tables.  No record has to have its names registered: `read_stream` is the special case in which
+nothing is learned. -/
+theorem read_stream_learning (reg : Registry) (rs : List (Record × Bytes))
+    (hall : ∀ x ∈ rs, x.1.origin = .residues x.2 ∧ Writable reg x.1 x.2 = true ∧ (∀ f ∈ x.1.table, LocRT f.loc)) :
+    (∃ t, writeAll reg (rs.map (·.1)) = .ok t ∧
+      readAll reg t = some (rs.map (fun x => readBack reg x.1 x.2), learnStream reg (rs.map (·.1)), true)) ∧
+    reg.le (learnStream reg (rs.map (·.1))) :=
+  ⟨GenBank.read_stream_learning reg reg (sameText_refl reg) rs hall, learnStream_le reg _⟩
+
+/-- … and the same when the reader has ALREADY learned names (it read other files before, or this
+stream once already): any starting registry `reg'` that writes the same text as the writer's. -/
+theorem read_stream_learning_from (reg reg' : Registry) (hs : sameText reg reg') (rs : List (Record × Bytes))
+    (hall : ∀ x ∈ rs, x.1.origin = .residues x.2 ∧ Writable reg x.1 x.2 = true ∧ (∀ f ∈ x.1.table, LocRT f.loc)) :
+    ∃ t, writeAll reg (rs.map (·.1)) = .ok t ∧
+      readAll reg' t = some (rs.map (fun x => readBack reg x.1 x.2), learnStream reg' (rs.map (·.1)), true) :=
+  GenBank.read_stream_learning reg reg' hs rs hall
+
+/-- non-vacuity: a stream of two records; the first teaches `my_tag` (unknown under the initial
+registry, learned as quoted), the second uses it again and is read under the larger registry -/
+def streamWitness : List (Record × Bytes) :=
+  [(⟨locusWitness, fixedWitness', .residues (List.replicate 12 97)⟩, List.replicate 12 97),
+   (⟨{ Fields.empty with locusName := bs "X", molecule := bs "DNA", date := ⟨1, 1, 1⟩ },
+      [⟨bs "gene", .point 0, [[bs "my_tag", bs "again"], [bs "other_tag", bs "new"]]⟩], .residues []⟩, [])]
+
+example : (∀ x ∈ streamWitness, x.1.origin = .residues x.2 ∧ Writable Registry.default x.1 x.2 = true ∧
+      (∀ f ∈ x.1.table, LocRT f.loc)) ∧
+    learnStream Registry.default (streamWitness.map (·.1)) ≠ Registry.default := by
+  constructor
+  · intro x hx
+    have hc : ∀ y ∈ streamWitness, (y.1.table.all fun f => Loc.canonP f.loc) = true := by decide +kernel
+    have hw : ∀ y ∈ streamWitness, y.1.origin = .residues y.2 ∧ Writable Registry.default y.1 y.2 = true := by
+      decide +kernel
+    exact ⟨(hw x hx).1, (hw x hx).2, fun f hf => locRT_of_canon f.loc (List.all_eq_true.mp (hc x hx) f hf)⟩
+  · decide +kernel
 
 end Gts.C01
